@@ -123,6 +123,10 @@ def reachable_objects(params, depth=3):
     return out
 
 
+class HarnessLimit(Exception):
+    """The run-time evaluator cannot evaluate a clause on this input (not a verdict about the code)."""
+
+
 class _Inline(ast.NodeTransformer):
     """Replace the names bound by a contract's `lets` by their defining expressions."""
     def __init__(self, lets):
@@ -194,7 +198,12 @@ class Clause:
         e = dict(env)
         e['__old__'] = _Olds(olds)
         table = getattr(self, '_attr_table', {})
-        e['__oldattr__'] = lambda o, a: table[(id(o), a)]
+        def oldattr(o, a):
+            if (id(o), a) not in table:
+                # the object was not reachable from the parameters in the pre-state: a limit of this evaluator
+                raise HarnessLimit(f'no pre-state value of .{a} for {type(o).__name__}')
+            return table[(id(o), a)]
+        e['__oldattr__'] = oldattr
         return eval(self.code, e)
 
 
@@ -327,6 +336,8 @@ class RuntimeContract:
         for cl in self.ensures:
             try:
                 ok = cl.post(env, olds[id(cl)])
+            except HarnessLimit:
+                continue       # this clause cannot be evaluated on this input (it stays a deductive obligation)
             except (KeyError, IndexError, ZeroDivisionError, AttributeError, StopIteration) as ex:
                 # the post-state lacks something the clause talks about: a genuine violation
                 raise ContractViolation(f'ensures:{cl.label}', f'clause raised {type(ex).__name__}: {ex}')
